@@ -617,4 +617,212 @@ theorem slotVal_drop (prop : List Char) (kws : List (List Char)) (hp : (prop, kw
 
 theorem minifyColor_none : minifyColor (tIdent (S "none")) = tIdent (S "none") := by decide
 
+/-! ## unicode-range -/
+
+def inR (c : Nat) (r : Nat × Nat) : Bool := r.1 ≤ c && c ≤ r.2
+
+theorem cpm_cons (c : Nat) (r : Nat × Nat) (l : List (Nat × Nat)) :
+    codePointMem c (r :: l) = (inR c r || codePointMem c l) := by
+  simp [codePointMem, inR]
+
+theorem cpm_nil (c : Nat) : codePointMem c [] = false := rfl
+
+theorem cpm_insert (c : Nat) (x : Nat × Nat) (l : List (Nat × Nat)) :
+    codePointMem c (insertRange x l) = (inR c x || codePointMem c l) := by
+  induction l with
+  | nil => simp [insertRange, cpm_cons]
+  | cons y r ih =>
+    simp only [insertRange]
+    split
+    · simp [cpm_cons]
+    · simp only [cpm_cons, ih]
+      cases inR c x <;> cases inR c y <;> simp
+
+theorem cpm_foldl_insert (c : Nat) (l acc : List (Nat × Nat)) :
+    codePointMem c (l.foldl (fun acc x => insertRange x acc) acc) = (codePointMem c l || codePointMem c acc) := by
+  induction l generalizing acc with
+  | nil => simp [cpm_nil]
+  | cons x r ih =>
+    simp only [List.foldl_cons, ih, cpm_insert, cpm_cons]
+    cases inR c x <;> cases codePointMem c r <;> simp
+
+theorem cpm_sort (c : Nat) (l : List (Nat × Nat)) : codePointMem c (sortRanges l) = codePointMem c l := by
+  simp [sortRanges, cpm_foldl_insert, cpm_nil]
+
+/-- starts are non-decreasing -/
+def SortedR : List (Nat × Nat) → Prop
+  | [] => True
+  | a :: r => (∀ b ∈ r, a.1 ≤ b.1) ∧ SortedR r
+
+theorem sorted_insert (x : Nat × Nat) (l : List (Nat × Nat)) (h : SortedR l) : SortedR (insertRange x l) := by
+  induction l with
+  | nil => simp [insertRange, SortedR]
+  | cons y r ih =>
+    simp only [insertRange]
+    split
+    · rename_i hlt
+      refine ⟨?_, h⟩
+      intro b hb
+      rcases List.mem_cons.mp hb with e | e
+      · subst e; omega
+      · have := h.1 b e; omega
+    · rename_i hge
+      refine ⟨?_, ih h.2⟩
+      intro b hb
+      -- members of insertRange x r are x or members of r
+      have hmem : ∀ (l : List (Nat × Nat)) b, b ∈ insertRange x l → b = x ∨ b ∈ l := by
+        intro l
+        induction l with
+        | nil => intro b hb; simp [insertRange] at hb; exact Or.inl hb
+        | cons z t iht =>
+          intro b hb
+          simp only [insertRange] at hb
+          split at hb
+          · rcases List.mem_cons.mp hb with e | e
+            · exact Or.inl e
+            · exact Or.inr e
+          · rcases List.mem_cons.mp hb with e | e
+            · exact Or.inr (by rw [e]; exact List.mem_cons_self)
+            · rcases iht b e with e' | e'
+              · exact Or.inl e'
+              · exact Or.inr (List.mem_cons_of_mem _ e')
+      rcases hmem r b hb with e | e
+      · subst e; omega
+      · exact h.1 b e
+
+theorem sorted_foldl (l acc : List (Nat × Nat)) (h : SortedR acc) :
+    SortedR (l.foldl (fun acc x => insertRange x acc) acc) := by
+  induction l generalizing acc with
+  | nil => exact h
+  | cons x r ih => exact ih _ (sorted_insert x acc h)
+
+theorem sorted_sort (l : List (Nat × Nat)) : SortedR (sortRanges l) := sorted_foldl l [] trivial
+
+theorem cpm_mergeInto (c : Nat) (a : Nat × Nat) (r : List (Nat × Nat))
+    (ha : ∀ b ∈ r, a.1 ≤ b.1) (hs : SortedR r) :
+    codePointMem c (mergeInto a r) = (inR c a || codePointMem c r) := by
+  induction r generalizing a with
+  | nil => simp [mergeInto, cpm_cons, cpm_nil]
+  | cons b r ih =>
+    have hab := ha b List.mem_cons_self
+    simp only [mergeInto]
+    split
+    · -- b inside a
+      rename_i hin
+      rw [ih a (fun x hx => ha x (List.mem_cons_of_mem _ hx)) hs.2, cpm_cons]
+      have : inR c b = true → inR c a = true := by
+        simp only [inR, Bool.and_eq_true, decide_eq_true_eq]; omega
+      cases h1 : inR c a <;> cases h2 : inR c b <;> simp_all
+    · split
+      · -- overlap or adjacency
+        rename_i hnin hov
+        rw [ih (a.1, b.2) (fun x hx => by have := hs.1 x hx; simp; omega) hs.2, cpm_cons]
+        have : inR c (a.1, b.2) = (inR c a || inR c b) := by
+          simp only [inR]
+          by_cases h1 : a.1 ≤ c <;> by_cases h2 : c ≤ a.2 <;> by_cases h3 : b.1 ≤ c <;> by_cases h4 : c ≤ b.2 <;>
+            simp [h1, h2, h3, h4] <;> omega
+        rw [this]
+        cases inR c a <;> cases inR c b <;> simp
+      · rw [cpm_cons, ih b hs.1 hs.2, cpm_cons]
+
+
+/-! ## writer -/
+
+theorem writeArg_fn_last (t : Tok) (h : t.tt = .function) : (writeArg t).getLast? = some ')' := by
+  obtain ⟨tt, data, args⟩ := t
+  simp only [Tok.tt] at h
+  subst h
+  simp [writeArg]
+
+theorem writeArg_data (t : Tok) (h : t.tt ≠ .function) : writeArg t = t.data := by
+  obtain ⟨tt, data, args⟩ := t
+  simp only [Tok.tt, ne_eq] at h
+  simp [writeArg, Tok.data, h]
+
+theorem writeArg_head (t : Tok) (hs : t.data ≠ []) : (writeArg t).head? = t.data.head? := by
+  obtain ⟨tt, data, args⟩ := t
+  simp only [Tok.data] at hs
+  cases data with
+  | nil => exact absurd rfl hs
+  | cons c r => simp [writeArg, Tok.data]
+
+theorem slash_data (p : Tok) (hp : TokShape p) (h : Verif.Model.Css.isSlash p = true) : p.data = ['/'] := by
+  simp only [Verif.Model.Css.isSlash, Bool.and_eq_true, beq_iff_eq] at h
+  have hl := hp.2.1 h.1
+  cases hd : p.data with
+  | nil => rw [hd] at hl; simp at hl
+  | cons c r =>
+    rw [hd] at hl h
+    cases r with
+    | nil => simp at h; rw [h.2]
+    | cons _ _ => simp at hl
+
+theorem safe_of_sepAfter (p t : Tok) (hp : TokShape p) (ht : TokShape t) (hs : sepAfter p = true)
+    (hc : (p.tt == .delim && opensComment p.data t.data) = false) : safeBoundary (writeArg p) (writeArg t) = true := by
+  have hth := writeArg_head t ht.2.2.2
+  simp only [sepAfter, Bool.or_eq_true, beq_iff_eq] at hs
+  rcases hs with ((h | h) | h) | h
+  · -- comma
+    have hne : p.tt ≠ .function := by simp [h]
+    rw [writeArg_data p hne, hp.1 h]
+    simp [safeBoundary]
+  · -- slash
+    have hd := slash_data p hp h
+    have htt : p.tt = .delim := by
+      simp only [Verif.Model.Css.isSlash, Bool.and_eq_true, beq_iff_eq] at h; exact h.1
+    have hne : p.tt ≠ .function := by simp [htt]
+    rw [writeArg_data p hne, hd]
+    simp only [htt, beq_self_eq_true, Bool.true_and, opensComment, hd] at hc
+    simp only [safeBoundary, hth]
+    simp at hc ⊢
+    exact hc
+  · -- function
+    simp [safeBoundary, writeArg_fn_last p h]
+  · -- url
+    have hne : p.tt ≠ .function := by simp [h]
+    rw [writeArg_data p hne]
+    simp [safeBoundary, hp.2.2.1 h]
+
+theorem safe_of_sep_token (p t : Tok) (ht : TokShape t)
+    (h : t.tt = .comma ∨ Verif.Model.Css.isSlash t = true) : safeBoundary (writeArg p) (writeArg t) = true := by
+  rcases h with h | h
+  · have hne : t.tt ≠ .function := by simp [h]
+    rw [writeArg_data t hne, ht.1 h]
+    simp [safeBoundary]
+  · have hd := slash_data t ht h
+    have htt : t.tt = .delim := by
+      simp only [Verif.Model.Css.isSlash, Bool.and_eq_true, beq_iff_eq] at h; exact h.1
+    have hne : t.tt ≠ .function := by simp [htt]
+    rw [writeArg_data t hne, hd]
+    simp [safeBoundary]
+
+theorem writer_joined (p : Tok) (r : List Tok) (hp : TokShape p) (hr : ∀ t ∈ r, TokShape t) :
+    Joined (writeArg p :: r.map writeArg) (writeArg p ++ writeVals (some p) (sepAfter p) r) := by
+  induction r generalizing p with
+  | nil => simpa [writeVals] using Joined.single (writeArg p)
+  | cons t r ih =>
+    have ht := hr t List.mem_cons_self
+    have ih' := ih t ht (fun x hx => hr x (List.mem_cons_of_mem _ hx))
+    simp only [List.map_cons, writeVals]
+    split
+    · -- a space is written
+      simpa using Joined.space (writeArg p) (writeArg t) (r.map writeArg) _ ih'
+    · rename_i hns
+      split
+      · simpa using Joined.space (writeArg p) (writeArg t) (r.map writeArg) _ ih'
+      · rename_i hnc
+        have hnc' : (p.tt == .delim && opensComment p.data t.data) = false := by simpa using hnc
+        have hsafe : safeBoundary (writeArg p) (writeArg t) = true := by
+          by_cases hsa : sepAfter p = true
+          · exact safe_of_sepAfter p t hp ht hsa hnc'
+          · apply safe_of_sep_token p t ht
+            simp only [Bool.and_eq_true, Bool.not_eq_true', bne_iff_ne, ne_eq, not_and, Bool.not_eq_false] at hns
+            have hsa' : sepAfter p = false := by simpa using hsa
+            by_cases hcm : t.tt = .comma
+            · exact Or.inl hcm
+            · right
+              exact hns ⟨hsa', hcm⟩
+        simpa using Joined.tight (writeArg p) (writeArg t) (r.map writeArg) _ hsafe ih'
+
+
 end Verif.Proofs.Css
